@@ -1045,6 +1045,46 @@ fn first_hop_cases(rec: &mut Rec, rng: &mut Rng, w: &World, n: usize) {
 	rec.notes.insert("firsthop".into(), format!("{} ChannelDetails with independently drawn fields through the real CandidateRouteHop::FirstHop accessors: minimum below the current one {} times, liquidity above the current limit {} times, fees/cltv non-zero {} times (at most {} reported each)", n, n_min, n_cap, n_fee, KF_CAP));
 }
 
+/// C16-r6: `sort_first_hop_channels` (hook router::sort_first_hop_channels, /repo commit b1076c7) — the REAL ordering of the caller's channels
+/// against the translated comparator (Lean `sortFirstHops`); used_liquidities entries under the right key, the wrong direction, another scid
+fn sort_first_hop_cases(rec: &mut Rec, rng: &mut Rng, w: &World, n: usize) {
+	let mut n_bad = 0u64;
+	for _ in 0..n {
+		let our = w.pks[0];
+		let recv = match rng.below(5) { 0 => 0, 1 => rng.range(1, 1000), 2 => 3 * rng.range(1000, 100_000), 3 => u64::MAX - rng.below(2), _ => rng.range(1, 50_000_000) };
+		let k = 1 + rng.below(6) as usize;
+		let mut details: Vec<ChannelDetails> = vec![];
+		let mut used: Vec<(u64, bool, u64)> = vec![];
+		for j in 0..k {
+			let peer = w.pks[1 + rng.below(3) as usize];
+			let limit = match rng.below(6) { 0 => near(rng, recv), 1 => rng.range(0, recv.max(1).min(u64::MAX - 1)), 2 => recv.saturating_add(rng.range(0, 1_000_000)), 3 => u64::MAX - rng.below(2), 4 => details.last().map_or(7, |d: &ChannelDetails| d.next_outbound_htlc_limit_msat), _ => rng.range(0, 100_000_000) };
+			let (scid, alias) = match rng.below(3) { 0 => (Some(100 + j as u64), None), 1 => (None, Some(2_000_000 + j as u64)), _ => (Some(100 + j as u64), Some(2_000_000 + j as u64)) };
+			let d = channel_details(peer, scid, alias, limit, 0, rng.chance(1, 2));
+			let (pscid, dir) = (d.get_outbound_payment_scid().unwrap(), our < peer);
+			let amt = match rng.below(5) { 0 => near(rng, limit), 1 => near(rng, limit.saturating_sub(recv)), 2 => u64::MAX, 3 => rng.range(0, 1000), _ => rng.range(0, limit.max(1).min(u64::MAX - 1)) };
+			match rng.below(6) { 0 | 1 => used.push((pscid, dir, amt)), 2 => used.push((pscid, !dir, amt)), 3 => used.push((scid.unwrap_or(77), dir, amt)), _ => {} }
+			details.push(d);
+		}
+		{ let mut seen: HashSet<(u64, bool)> = HashSet::new(); used.retain(|(s, d, _)| seen.insert((*s, *d))); }
+		let remaining = |d: &ChannelDetails| d.next_outbound_htlc_limit_msat.saturating_sub(used.iter().find(|(s, dr, _)| *s == d.get_outbound_payment_scid().unwrap() && *dr == (our < d.counterparty.node_id)).map_or(0, |u| u.2));
+		let op = format!("sortfh {} U {}{} C {}{}", recv, used.len(), used.iter().map(|(s, d, a)| format!(" {} {} {}", s, *d as u8, a)).collect::<String>(), k,
+			details.iter().map(|d| format!(" {} {} {}", d.get_outbound_payment_scid().unwrap(), (our < d.counterparty.node_id) as u8, d.next_outbound_htlc_limit_msat)).collect::<String>());
+		let mut refs: Vec<&ChannelDetails> = details.iter().collect();
+		match guarded(AssertUnwindSafe(|| { lightning::ln::verif_hooks::router::sort_first_hop_channels(&mut refs, &used, recv, &our); refs.iter().map(|d| remaining(d)).collect::<Vec<u64>>() })) {
+			Ok(out) => {
+				let suff: Vec<u64> = details.iter().map(|d| remaining(d)).filter(|x| *x >= recv).collect();
+				// the function's documented purpose, on what the real sort did: nothing dropped, and if a channel still covers the recommended value the first one is the smallest that does
+				let mut a = out.clone(); a.sort(); let mut b: Vec<u64> = details.iter().map(|d| remaining(d)).collect(); b.sort();
+				if a != b || suff.iter().min().map_or(false, |m| out[0] != *m) { n_bad += 1; kf_fail(rec, n_bad, format!("sort_first_hop_channels: remaining limits after the sort {:?} (recommended {}): {} | {}", out, recv, if a != b { "not a permutation of the input" } else { "a channel covers the recommended value but the first one is not the smallest that does" }, op)); }
+				let class = format!("sortfh:{}/{}", if suff.is_empty() { "none-sufficient" } else if suff.len() == k { "all-sufficient" } else { "mixed" }, if used.iter().any(|(s, dr, a)| *a > 0 && details.iter().any(|d| d.get_outbound_payment_scid().unwrap() == *s && (our < d.counterparty.node_id) == *dr)) { "used-liquidity-counts" } else { "no-used-entry" });
+				rec.case(&op, &format!("sorted{}", out.iter().map(|x| format!(" {}", x)).collect::<String>()), &class, k > 1);
+			},
+			Err(p) => { rec.case(&op, &format!("panic {}", p.replace('\n', " ")), "sortfh:panic", true); },
+		}
+	}
+	rec.notes.insert("sortfh".into(), format!("{} channel sets through the real sort_first_hop_channels; documented order violated {} times", n, n_bad));
+}
+
 /// the raw ChannelUpdateInfo::htlc_maximum_msat of the direction of `ci` TOWARDS `to`
 fn hmax_raw(ci: &lightning::routing::gossip::ChannelInfo, to: &NodeId) -> u64 { if *to == ci.node_two { ci.one_to_two.as_ref().map_or(0, |u| u.htlc_maximum_msat) } else { ci.two_to_one.as_ref().map_or(0, |u| u.htlc_maximum_msat) } }
 
@@ -1074,7 +1114,7 @@ fn guard_cases(rec: &mut Rec, st: &mut Stats, w: &World, secp: &Secp256k1<bitcoi
 	for _ in 0..k {
 		let amt = match rng.below(3) { 0 => rng.range(2, 50), 1 => rng.range(1000, 100_000), _ => rng.range(1_000_000, 50_000_000) };
 		let fee = rng.range(1, 2000);
-		for (guard, deltas) in [("htlc_minimum", [-1i64, 0, 1]), ("contribution", [-1, 0, 1]), ("cltv", [-1, 0, 1]), ("path_length", [-1, 0, 1]), ("fee", [-1, 0, 1]), ("first_hop_minimum", [-1, 0, 1]), ("first_hop_limit", [-1, 0, 1]), ("excluded", [0, 0, 0])] {
+		for (guard, deltas) in [("htlc_minimum", [-1i64, 0, 1]), ("contribution", [-1, 0, 1]), ("cltv", [-1, 0, 1]), ("path_length", [-1, 0, 1]), ("fee", [-1, 0, 1]), ("first_hop_minimum", [-1, 0, 1]), ("first_hop_limit", [-1, 0, 1]), ("htlc_minimum_over_recommended", [-1, 0, 1]), ("excluded", [0, 0, 0])] {
 			for (di, d) in deltas.iter().enumerate() {
 				if guard == "excluded" && di > 0 { continue; }
 				let adj = |x: u64| (x as i64 + d) as u64;
@@ -1088,6 +1128,9 @@ fn guard_cases(rec: &mut Rec, st: &mut Stats, w: &World, secp: &Secp256k1<bitcoi
 					"cltv" => { maxcltv = adj(40 + 80 + 80); *d },                    // final 40 + shadow reserve 80 + the two forwarding deltas 40 + 40
 					"path_length" => { maxlen = adj(3); *d },
 					"fee" => { base3 = fee; maxfee = adj(fee).to_string(); *d },
+					// C16-r6: channel 2 needs 3·amt + d; recommended_value_msat = 3·amt: above it (d = 1) the candidate falls through BOTH minimum
+					// branches of add_entry! into the final `else` (counter `htlc-minimum`, router.rs num_ignored_htlc_minimum_msat_limit); never met by amt
+					"htlc_minimum_over_recommended" => { min2 = adj(amt.saturating_mul(3)); -2 - d },
 					"first_hop_minimum" => { fmin = adj(amt); -d },
 					"first_hop_limit" => { flim = adj(amt); *d },
 					_ => { excl = "X 1 3".to_string(); -1 },
@@ -1103,7 +1146,9 @@ fn guard_cases(rec: &mut Rec, st: &mut Stats, w: &World, secp: &Secp256k1<bitcoi
 				let counts = *GUARD_COUNTS.lock().unwrap();
 				let hit: Vec<&str> = (0..7).filter(|i| counts[*i] > 0).map(|i| GUARD_NAMES[i]).collect();
 				let outcome = match &res { Ok(Ok(_)) => "route", Ok(Err(_)) => "noroute", Err(_) => "panic" };
-				*rec.classes.entry(format!("guard:{}/{}:{}/ignored-by[{}]", guard, if slack > 0 { "1-inside" } else if slack == 0 { "exactly-at" } else { "1-beyond" }, outcome, hit.join(","))).or_insert(0) += 1;
+				*rec.classes.entry(format!("guard:{}/{}:{}/ignored-by[{}]", guard, if guard == "htlc_minimum_over_recommended" { ["minimum=3amt-1", "minimum=3amt", "minimum=3amt+1"][di] } else if slack > 0 { "1-inside" } else if slack == 0 { "exactly-at" } else { "1-beyond" }, outcome, hit.join(","))).or_insert(0) += 1;
+				// the final `else` of add_entry!'s chain must be what turns the candidate away once its minimum exceeds recommended_value_msat
+				if guard == "htlc_minimum_over_recommended" && *d == 1 && (counts[4] == 0 || outcome == "route") { rec.oracle_fail(format!("guard probe htlc_minimum_over_recommended: channel 2 needs {} msat > recommended_value_msat {} but the router's htlc-minimum counter is {} and find_route answered {} | noroute {} {}", min2, amt.saturating_mul(3), counts[4], outcome, req_str(&c.q), gs)); }
 				if slack >= 0 && outcome != "route" { rec.oracle_fail(format!("guard probe {} ({}): the only path 0 -> 1 -> 2 -> 3 meets every limit ({} exactly at its boundary) but find_route answered {:?}; router's ignored-candidate counters {:?} | noroute {} {}", guard, if slack == 0 { "exactly at" } else { "1 inside" }, guard, res.as_ref().map(|r| r.as_ref().map(|_| "route")), counts, req_str(&c.q), gs)); }
 				record(rec, st, w, &g, &gs, &c.q, 4, true, true, &c.blinding_points, res, &mut scratch);
 			}
@@ -1161,6 +1206,7 @@ fn router_model(args: &Args) {
 		rec.case(&format!("matchscid {} {} {}", a.map_or("-".into(), |x| x.to_string()), sc.map_or("-".into(), |x| x.to_string()), h), if want { "1" } else { "0" }, if want { "matchscid:own-channel" } else { "matchscid:other" }, true);
 	}
 	{ let mut rng3 = Rng::new(args.seed ^ 0xc16f_1857); first_hop_cases(&mut rec, &mut rng3, &w, if args.thorough { 4000 } else { 600 }); }
+	{ let mut rng5 = Rng::new(args.seed ^ 0xc16_50f7); sort_first_hop_cases(&mut rec, &mut rng5, &w, if args.thorough { 4000 } else { 600 }); }
 	// the deterministic probes of the known findings (fixed inputs; the graph on the line is dumped from NetworkGraph::read_only())
 	for (k, (name, expect, line)) in PROBES.iter().enumerate() {
 		let c = parse_case(line, &w, &secp, &LOGGER).expect("probe line");
